@@ -67,7 +67,15 @@ def part(draw, tag):
 @st.composite
 def strategy_(draw, tier):
     nparts = draw(st.integers(1, 3))
-    parts = [draw(part('abc'[i])) for i in range(nparts)]
+    # a later part may re-use the names of an earlier one (with other
+    # parameters, dependencies and state): equal keys, later entries win
+    tags = []
+    for i in range(nparts):
+        if i and draw(st.integers(0, 2)) == 0:
+            tags.append(draw(st.sampled_from(tags)))
+        else:
+            tags.append('abc'[i])
+    parts = [draw(part(tags[i])) for i in range(nparts)]
     merges = []
     for _ in range(draw(st.integers(1, 4))):
         merges.append({'idx': draw(st.integers(0, nparts - 1)),
@@ -280,6 +288,9 @@ def check_merges(spec, res, ctx):
         for k in KEYS:
             expected[k] = union(expected[k], nest(list(path), before_src[k]))
         merged_in.append((m['idx'], src, pre_src))
+        if len({p['procs'][0]['name'][0] for p in spec['parts']}) < \
+                len(spec['parts']):
+            res.label('merge.equal_keys')
         for k in KEYS:
             if not same(target[k], expected[k]):
                 res.fail('merge.union', 'after merge %d (%r) target[%s] = %r, '
